@@ -137,6 +137,8 @@ type Sched struct {
 	MapRanges     int
 	Counters      map[string]int
 	Deadlocked    bool // ended with goroutines blocked but nothing enabled and no timer
+	RootDone      bool
+	RootSite      string
 	StepLimit     bool
 }
 
@@ -401,6 +403,7 @@ func (s *Sched) Run(root func()) {
 	g := s.newG("root")
 	rootDone := false
 	go s.runG(g, func() { root(); rootDone = true })
+	defer func() { s.RootDone = rootDone; s.RootSite = g.Site }()
 
 	for {
 		synctest.Wait()
